@@ -205,6 +205,23 @@ theorem addCirclesCalls_length {α : Type} [R α] (th : α → α) (m : ℕ) (de
       | nil => simp [addCirclesCalls]
       | cons c rs => simp only [addCirclesCalls, List.length_cons, ih]; omega
 
+/-- list arguments: the calls are exactly the per-triple calls, in order — a function of the current
+    arguments only, with NO de-duplication: a centre listed twice gets two calls, each with its own
+    radius (so the larger of two radii at a repeated centre is covered whatever the order) -/
+theorem addCirclesCalls_eq_map {α : Type} [R α] (th : α → α) (m : ℕ) (depth : Option ℕ)
+    (ras decs rs : List α) :
+    addCirclesCalls th m depth ras decs rs
+      = (ras.zip (decs.zip rs)).map (fun t => addCircleCall th m depth t.1 t.2.1 t.2.2) := by
+  induction ras generalizing decs rs with
+  | nil => simp [addCirclesCalls]
+  | cons a ras ih =>
+    cases decs with
+    | nil => simp [addCirclesCalls]
+    | cons b decs =>
+      cases rs with
+      | nil => simp [addCirclesCalls]
+      | cons c rs => simp [addCirclesCalls, ih]
+
 /-- `add_poly` rejects exactly the position lists with fewer than three entries -/
 theorem addPolyCall_none_iff {α : Type} [R α] (th : α → α) (m : ℕ) (depth : Option ℕ) (pos : List (α × α)) :
     addPolyCall th m depth pos = none ↔ pos.length < 3 := by
